@@ -50,6 +50,15 @@ def run(tier, v):
             bad.append("hang")
         elif x.signal is not None:
             bad.append("killed-by-signal-%d" % x.signal)
+        # (1b) "finishes the file it is working on, stops": after the signal at most one more source file is opened for reading - the one
+        # whose turn had already begun (the flag is looked at between files) - and no second pass over the tree is started
+        sigs = [(k, a) for k, a in x.plan if k is not None and a.startswith("sig")]
+        if sigs and x.signal is None and not x.timed_out:
+            k0, a0 = sigs[0]
+            later = [o.path for o in x.trace if o.op == "open" and o.cls == "r" and o.path.startswith("$R0/src/")
+                     and (o.k >= k0 if a0.startswith("sig-before") else o.k > k0)]
+            if len(later) > 1:
+                bad.append("did-not-stop(%d-more-source-files-opened)" % min(len(later), 3))
         # (2) exit 0 only if nothing was left to do
         if x.exit == 0:
             if sc.check:
